@@ -65,6 +65,8 @@ type Exec struct {
 	unwound         map[string]bool
 	postSeen        map[string]int
 	siteSeen        map[*Clause]int
+	specEval        int       // >0 while a function body is run to evaluate a specification expression: no obligations
+	inst            [2]string // binding of a function-typed parameter (instantiate clause)
 	ghostSeen       map[*GhostStmt]int
 	entry           *State
 	Bounded         []string
@@ -121,6 +123,9 @@ func (x *Exec) funcLabel() string {
 	if i := strings.LastIndex(short, "/"); i >= 0 {
 		short = short[i+1:]
 	}
+	if x.inst[0] != "" {
+		return short + "." + FuncName(x.Fn) + "[" + x.inst[0] + "=" + x.inst[1] + "]"
+	}
 	return short + "." + FuncName(x.Fn)
 }
 
@@ -148,7 +153,7 @@ func (x *Exec) anchor(ins ssa.Instruction, fallback string) string {
 }
 
 func (x *Exec) oblige(st *State, kind, anchor string, goal *Term, text string, ins ssa.Instruction, props []string) {
-	if st.Dead {
+	if st.Dead || x.specEval > 0 {
 		return
 	}
 	if goal.IsTrue() {
